@@ -117,53 +117,101 @@ def simplify_index(v):
     return subst_index(v, {})
 
 
-def _split_radix(num, rad):
-    """num = a*rad + b with b provably in [0, rad): return (a, b) else None."""
-    pn, pr = num.aspoly(), rad.aspoly()
-    if pn is None or pr is None or len(pr.t) != 1:
+# ---------------------------------------------------------------- mixed-radix arithmetic on index polynomials
+#
+# Index expressions are linear forms  sum_k w_k * d_k  whose weights w_k are *radix monomials*: a positive integer
+# times a product of size symbols (all sizes >= 1).  Digits d_k are induction variables (range known from RANGES),
+# non-negative integer literals, or again such forms.
+
+
+def _mono(v):
+    """(int coefficient, {atom: exp}) if v is a single term with positive integer coefficient, else None."""
+    p = v.aspoly() if isinstance(v, V) else v
+    if p is None or len(p.t) != 1:
         return None
-    (rk, rc), = pr.t.items()
-    if not (rc.re == 1 and not rc.im):
+    (k, c), = p.t.items()
+    if c.im or c.re.denominator != 1 or c.re <= 0:
         return None
+    return (int(c.re), dict(k))
+
+
+def _mono_V(m):
+    return V.of_poly(Poly({tuple(sorted(m[1].items())): C(m[0])}))
+
+
+def _divide_terms(p, w):
+    """Split polynomial p by radix monomial w: (hi, lo) with p = w*hi + lo, hi collecting the terms divisible by w."""
+    wc, we = w
     hi, lo = {}, {}
-    rd = dict(rk)
-    for k, c in pn.t.items():
+    for k, c in p.t.items():
         kd = dict(k)
-        if all(kd.get(a, 0) >= e for a, e in rd.items()):
-            nk = tuple(sorted((a, e - rd.get(a, 0)) for a, e in kd.items() if e - rd.get(a, 0) > 0))
-            hi[nk] = c
+        if (not c.im and c.re.denominator == 1 and int(c.re) % wc == 0 and all(kd.get(a, 0) >= e for a, e in we.items())):
+            nk = tuple(sorted((a, e - we.get(a, 0)) for a, e in kd.items() if e - we.get(a, 0) > 0))
+            hi[nk] = C(c.re / wc)
         else:
             lo[k] = c
-    lo_p = Poly(lo)
-    if not _in_range(lo_p, rad):
+    return Poly(hi), Poly(lo)
+
+
+def _split_radix(num, rad):
+    """num = a*rad + b with b provably in [0, rad): return (a, b) as V else None."""
+    pn = num.aspoly() if isinstance(num, V) else num
+    w = _mono(rad)
+    if pn is None or w is None:
         return None
-    return V.of_poly(Poly(hi)), V.of_poly(lo_p)
+    hi, lo = _divide_terms(pn, w)
+    if not _in_range(lo, rad):
+        return None
+    return V.of_poly(hi), V.of_poly(lo)
 
 
-def _in_range(p, bound):
-    """Is polynomial p provably in [0, bound)?  Single induction variable with that range, or 0,
-    or a mixed-radix combination a*m + b with a < bound/m and b < m."""
+def _in_range(p, bound, _depth=0):
+    """Is index polynomial p provably in [0, bound)?"""
+    if isinstance(p, V):
+        p = p.aspoly()
+        if p is None:
+            return False
     if p.iszero():
         return True
-    if len(p.t) == 1:
-        (k, c), = p.t.items()
-        if len(k) == 1 and k[0][1] == 1 and c.re == 1 and not c.im:
-            r = RANGES.get(k[0][0])
-            if r is not None and r.eq(bound):
+    bm = _mono(bound)
+    if bm is None or _depth > 6:
+        return False
+    if p.isconst():
+        c = p.constval()
+        if c.im or c.re.denominator != 1 or c.re < 0:
+            return False
+        return int(c.re) < bm[0]  # size symbols are >= 1
+    name = _single_atom_name(V.of_poly(p))
+    if name is not None:
+        r = RANGES.get(name)
+        if r is not None:
+            rm = _mono(r)
+            if rm is not None and bm[0] % rm[0] == 0 and all(bm[1].get(a, 0) >= e for a, e in rm[1].items()):
+                return True  # range divides bound, and bound/range >= 1
+            if r.eq(bound):
                 return True
-    # mixed radix: bound = m1*m2, p = a*m2 + b with a in [0,m1), b in [0,m2)
-    pb = bound.aspoly()
-    if pb is not None and len(pb.t) == 1:
-        (bk, bc), = pb.t.items()
-        if bc.re == 1 and not bc.im and sum(e for _, e in bk) >= 2:
-            for at, e in bk:
-                m2 = V.atom(at)
-                m1 = bound / m2
-                dec = _split_radix(V.of_poly(p), m2)
-                if dec is not None and m1.aspoly() is not None:
-                    a = dec[0].aspoly()
-                    if a is not None and _in_range(a, m1):
-                        return True
+        return False
+    # bound = r * w : top digit < r with weight w, remainder < w
+    cands = []
+    if bm[0] > 1 and bm[1]:
+        cands.append(((bm[0], {}), (1, dict(bm[1]))))
+    for at, e in bm[1].items():
+        rest = dict(bm[1])
+        if e == 1:
+            del rest[at]
+        else:
+            rest[at] = e - 1
+        cands.append(((1, {at: 1}), (bm[0], rest)))
+    for r, w in cands:
+        if w == (1, {}):
+            continue
+        hi, lo = _divide_terms(p, w)
+        if hi.iszero():
+            if _in_range(lo, _mono_V(w), _depth + 1):
+                return True
+            continue
+        if _in_range(hi, _mono_V(r), _depth + 1) and _in_range(lo, _mono_V(w), _depth + 1):
+            return True
     return False
 
 
@@ -286,6 +334,7 @@ class Interp:
         self.writes = []  # (Arr, op, idx tuple, rhs V/Tensor, loops snapshot, node)
         self.guards = []  # multiplicative guard markers (V) applying to accumulations
         self.births = {}  # local name -> loop depth at its last plain assignment
+        self.scalar_aug = []  # (name, birth depth, loops, node) for every augmented assignment to a plain name
         self.skip_if = set(self.hooks.get("skip_if", ()))
         self.seen_param_ifs = []
         self.inline = self.hooks.get("inline", {})
@@ -487,6 +536,7 @@ class Interp:
         if isinstance(st.target, ast.Name):
             cur = self.ev(st.target)
             v = self.ev(st.value)
+            self.scalar_aug.append((st.target.id, self.births.get(st.target.id, self.depth), list(self.loops), st))
             # scalar reduction into a local over symbolic loops
             if st.target.id in self.hooks.get("counters", ()):
                 self.env[st.target.id] = self.binop(st.op, cur, v, st)
@@ -1178,6 +1228,7 @@ class Interp:
         sub.guards = list(self.guards)
         r = sub.run()
         self.writes.extend(sub.writes)
+        self.scalar_aug.extend(sub.scalar_aug)
         return r
 
     def reshape(self, v, shp, node):
@@ -1398,49 +1449,54 @@ def unify(pattern, bound, idx):
 
 
 def _match_radix(pp, pb, rp):
-    # pattern = sum_b c_b * b + p0 ; c_b monomials in size symbols
-    coefs = {}
+    """Unify the mixed-radix pattern pp (bound variables pb) with the read index rp.
+
+    Returns substitution dict, "disjoint", or None (undecided)."""
+    weights = {}
     p0 = {}
     for k, c in pp.t.items():
         vs = [a for a, e in k if a in pb]
         if not vs:
             p0[k] = c
             continue
-        if len(vs) != 1 or dict(k)[vs[0]] != 1 or not (c.re == 1 and not c.im):
+        if len(vs) != 1 or dict(k)[vs[0]] != 1 or c.im or c.re.denominator != 1 or c.re <= 0:
             return None
-        rest = tuple((a, e) for a, e in k if a != vs[0])
-        if vs[0] in coefs:
+        if vs[0] in weights:
             return None
-        coefs[vs[0]] = rest
-    rem = dict((rp - Poly(p0)).t)
-    order = sorted(coefs.items(), key=lambda kv: -sum(e for _, e in kv[1]))
+        weights[vs[0]] = (int(c.re), {a: e for a, e in k if a != vs[0]})
+    rem_p = Poly(p0)
+    order = sorted(weights.items(), key=lambda kv: (-sum(kv[1][1].values()), -kv[1][0]))
+    # FLAT read: a single induction variable against a 2-digit pattern  w*hi + lo  -> DIV/MOD
+    rem_r = rp - rem_p
+    if len(order) == 2 and order[1][1] == (1, {}) and rem_p.iszero():
+        flat = _single_atom_name(V.of_poly(rp))
+        if flat is not None:
+            rad = _mono_V(order[0][1])
+            rng, hi_rng, lo_rng = RANGES.get(flat), RANGES.get(order[0][0]), RANGES.get(order[1][0])
+            if rng is not None and hi_rng is not None and lo_rng is not None and lo_rng.eq(rad) and rng.eq(hi_rng * rad):
+                fv = V.atom(flat)
+                return {order[0][0]: opaque_atom("DIV", [fv, rad]), order[1][0]: opaque_atom("MOD", [fv, rad])}
     sub = {}
-    # FLAT read: a single induction variable against a 2-digit pattern -> DIV/MOD
-    if len(rem) == 1 and len(order) == 2:
-        (k, c), = rem.items()
-        if len(k) == 1 and k[0][1] == 1 and c.re == 1 and order[1][1] == () and len(order[0][1]) >= 1:
-            flat = V.atom(k[0][0])
-            rad = V.of_poly(Poly({order[0][1]: C(1)}))
-            rng = RANGES.get(k[0][0])
-            hi_rng = RANGES.get(order[0][0])
-            if rng is not None and hi_rng is not None and rng.eq(hi_rng * rad) and RANGES.get(order[1][0]) is not None and RANGES[order[1][0]].eq(rad):
-                return {order[0][0]: opaque_atom("DIV", [flat, rad]), order[1][0]: opaque_atom("MOD", [flat, rad])}
-    for var, rad in order:
-        rd = dict(rad)
-        got = {}
-        for k in list(rem):
-            kd = dict(k)
-            if all(kd.get(a, 0) >= e for a, e in rd.items()):
-                nk = tuple(sorted((a, e - rd.get(a, 0)) for a, e in kd.items() if e - rd.get(a, 0) > 0))
-                got[nk] = rem.pop(k)
-        cand = Poly(got)
+    cur = rp
+    smallest = None
+    for var, w in order:
+        hi, lo = _divide_terms(cur, w)
         rng = RANGES.get(var)
-        if rng is not None and not _in_range(cand, rng):
+        if rng is None or not _in_range(hi, rng):
             return None
-        sub[var] = V.of_poly(cand)
-    if rem:
-        return None
-    return sub
+        sub[var] = V.of_poly(hi)
+        cur = lo
+        smallest = w
+    # remainders below the smallest weight
+    if cur.key() == rem_p.key():
+        return sub
+    if smallest is not None and smallest != (1, {}):
+        wv = _mono_V(smallest)
+        if _in_range(cur, wv) and _in_range(rem_p, wv):
+            d = cur - rem_p
+            if d.isconst() and not d.iszero():
+                return "disjoint"
+    return None
 
 
 # ------------------------------------------------------------------ numpy
@@ -1688,3 +1744,16 @@ for _p in ("_np", "np", "numpy"):
     _NP_FUNCS[_p + ".cross"] = _np_cross
     _NP_FUNCS[_p + ".linalg.norm"] = _np_norm
     _NP_FUNCS[_p + ".atleast_2d"] = _np_atleast_2d
+
+
+def _single_atom_name(v):
+    """Name of the atom if v is exactly one atom with coefficient 1, else None."""
+    if not isinstance(v, V):
+        return None
+    p = v.aspoly()
+    if p is None or len(p.t) != 1:
+        return None
+    (k, c), = p.t.items()
+    if len(k) == 1 and k[0][1] == 1 and c.re == 1 and not c.im:
+        return k[0][0]
+    return None
